@@ -339,10 +339,21 @@ def deep_docs(run, rng, thorough):
 def cli_dir(run, model, rng, nfiles, sub=False):
     """stdout of -a / -l / -f and the files of -j parse back to the decoded documents, whatever the directory holds
     (PELs the selection options leave out and files that do not decode included)"""
+    import fixtures
+    fx = []
+    if not sub and rng.random() < 0.35:
+        # parser plug-ins that fail while the documents are printed: an SRC parser and a user-data parser of creator 'T' that raise
+        # (their diagnostics belong on stderr; the printed text must stay the JSON of the documents)
+        fx = [(1, "tsrc", rng.choice([2, 9, 2]), "src parser failed"), (0, "t1234", rng.choice([2, 9]), "ud parser failed")]
+    with fixtures.Fixtures(fx):
+        cli_dir_body(run, model, rng, nfiles, sub, failing_plugins=bool(fx))
+
+
+def cli_dir_body(run, model, rng, nfiles, sub, failing_plugins):
     import os
     import cli_runner
     import dirgen
-    plugins = rng.random() < 0.6
+    plugins = True if failing_plugins else rng.random() < 0.6
     files = dirgen.gen_dir(model, rng, nfiles, plugins=plugins, junk=rng.randrange(0, 3))
     if rng.random() < 0.3:
         files.append(("m_unopenable_%d" % rng.randrange(1000), b"", dict(kind="unreadable", how=rng.choice(["dangling", "loop", "socket"]))))
@@ -353,6 +364,15 @@ def cli_dir(run, model, rng, nfiles, sub=False):
         body = ('{"Note": "%s", "%s": [1, "%s"]}' % (rng.choice(notes), rng.choice(["k", "cl\u00e9"]), rng.choice(notes))).encode("utf-8")
         eid = 0x51000000 + rng.randrange(1 << 16)
         files.append(("u%08X.pel" % eid, dirgen.set_ids(c04.mini_pel(b"O", [(b"UD", 1, 1, 0x2000, body)]), eid=eid), dict(kind="pel", eid=eid)))
+        files.sort(key=lambda f: rng.random())
+    if failing_plugins:
+        from props import c18
+        for j in range(rng.randrange(1, 3)):
+            eid = 0x52000000 + rng.randrange(1 << 16)
+            body, _w = c18.src_body(rng, rng.choice(["BD8D1234", "11001234"]), proc=None, wcount=9,
+                                    w2=(0xFFFFFFFF if rng.random() < 0.5 else None))       # hex word 2 = FFFFFFFF: the fixture's trigger
+            secs = [(b"PS", 1, 1, 0x1234, body), (b"UD", 1, 7, 0x1234, bytes([0xFF]) + bytes(rng.randrange(256) for _ in range(7)))]
+            files.append(("t%08X.pel" % eid, dirgen.set_ids(c04.mini_pel(b"T", secs), eid=eid), dict(kind="pel", eid=eid)))
         files.sort(key=lambda f: rng.random())
     bits = rng.choice([0, 0, 1, 1, rng.randrange(64)])       # 0: informational / hidden PELs are left out; 1: every PEL
     rev = rng.random() < 0.4
